@@ -76,6 +76,12 @@ def feasible_items(tier):
             sp = F.with_teams(fl, lay)
             for rule in rules:
                 out.append((sp, {"rule": rule, "max_time": F.seq_bound(sp) + 2 + 2}))
+    # zero-work manual tasks (milestones): still feasible
+    for fl in F.flows(3, ("FS", "SS", "FF"), (0, 2)):
+        if all(t["work"] > 0 for t in fl["tasks"]) or (tier == "quick" and len(fl["links"]) > 2):
+            continue
+        sp = F.with_teams(fl, "DED")
+        out.append((sp, {"rule": "TSLACK", "max_time": F.seq_bound(sp) + 6}))
     # fixed worker-ID lists naming a worker who does not sort first (still feasible: the listed worker is eligible)
     for fl in list(F.flows(3, ("FS", "SS"), (1, 2)))[:: (4 if tier == "quick" else 1)]:
         for fx, lay in ((["W1"], "POOL2"), (["W2", "W1"], "POOL3"), (["W1"], "MIX")):
@@ -118,6 +124,13 @@ def infeasible_items(tier):
                 sp["tasks"][victim]["fixw"] = ["nobody"]
             for mt in (0, 1, 5, 12):
                 out.append((sp, {"rule": "TSLACK", "max_time": mt}))
+    # workers built without the skill keyword and filled in place: the unskilled one must not inherit anything
+    for links in ([], [[0, 1, "FS"]]):
+        sp = {"tasks": [{"name": "T0", "work": 1.0}, {"name": "T1", "work": 1.0}], "links": links,
+              "teams": [{"name": "TM0", "targets": [0], "workers": [{"name": "W0", "skills": {"T0": 1.0, "T1": 1.0}, "skills_inplace": True}]},
+                        {"name": "TM1", "targets": [1], "workers": [{"name": "W1", "skills": {}, "skills_inplace": True}]}]}
+        for mt in (5, 12):
+            out.append((sp, {"rule": "TSLACK", "max_time": mt}))
     return out
 
 
